@@ -31,13 +31,13 @@ pub const ALPHA: f64 = 1e-12;
 pub struct Data {
     pub n: usize,
     /// 0 ramp (distinct), 1 distinct with mixed sign and magnitude, 2 repeated (small alphabet),
-    /// 3 special values (±0, ±inf, extremes, duplicates), 4 constant
+    /// 3 special values (±0, ±inf, NaN of both signs, extremes, duplicates), 4 constant
     pub class: u8,
     pub salt: u64,
 }
 
 const CLASS_NAMES: [&str; 5] = ["ramp", "distinct", "repeated", "special", "constant"];
-const SPECIAL: [f64; 10] = [0.0, -0.0, f64::INFINITY, f64::NEG_INFINITY, 1.0, -1.0, f64::MIN_POSITIVE, f64::MAX, 5e-324, -f64::MAX];
+const SPECIAL: [f64; 12] = [0.0, -0.0, f64::INFINITY, f64::NEG_INFINITY, 1.0, -1.0, f64::MIN_POSITIVE, f64::MAX, 5e-324, -f64::MAX, f64::NAN, -f64::NAN];
 const ALPHABET: [f64; 6] = [0.5, -1.25, 3.0, 1e10, -0.0, 0.0];
 
 pub fn gen_data(d: &Data) -> Vec<f64> {
